@@ -455,7 +455,7 @@ def check_scenario(ctx, spec):
 
 
 def campaigns(ctx):
-    return [Campaign('scenario', scenario(), check_scenario, 3000, 40000)]
+    return [Campaign('scenario', scenario(), check_scenario, 3000, 12000)]
 
 
 LEVEL_TEXT = (
